@@ -75,6 +75,10 @@ pub fn gen(r: &mut Rng) -> Value {
         "array_concat ${arr} ${arr}", "array_concat nohandle ${arr}", "array_is_empty ${arr}", "set_from_array ${arr}", "set_from_array nohandle",
         "map_contains_value ${map} v1", "map_contains_key ${map} k1", "map_is_empty ${map}", "set_is_empty ${set}", "join_path a b c",
         "unset va", "is_empty \"\"", "concat a b c", "map_contains_value nohandle x", "array_is_empty nohandle",
+        // a collection whose items are special text (a lone `=`, text with a blank, a comment sign, reference text),
+        // searched for values that are themselves command names
+        "array_contains ${sp} pwd", "array_contains ${sp} array", "array_contains ${sp} zz", "array_contains ${sp} \"a b\"", "array_join ${sp} ,", "array_is_empty ${sp}",
+        "map_contains_value ${mp} pwd", "map_contains_value ${mp} =",
     ];
     let n = 1 + r.below(4);
     let seq: Vec<String> = (0..n).map(|_| r.pick(&calls).to_string()).collect();
@@ -172,7 +176,7 @@ fn run_inner(input: &Value) -> Option<Value> {
     }
     let mut context = Context::new();
     duckscriptsdk::load(&mut context.commands).ok()?;
-    let setup = "arr = array a b c\nmap = map\nmap_put ${map} k1 v1\nset = set_new x y\nva = set 1\nvb = set 2\nscope::caller::x = set keep";
+    let setup = "arr = array a b c\nmap = map\nmap_put ${map} k1 v1\nset = set_new x y\nva = set 1\nvb = set 2\nscope::caller::x = set keep\nsp = array x = \"a b\" \"#c\" pwd\nmp = map\nmap_put ${mp} k =\nmap_put ${mp} k2 pwd";
     context = runner::run_script(setup, context, None).ok()?;
     if let Some(vs) = input["caller_vars"].as_array() {
         for (k, v) in vs.iter().enumerate() {
